@@ -21,7 +21,9 @@ RULE = ('cases = (dialect, context, operator tree); trees over unary minus, * / 
         'kinds) with and without one redundant parenthesis pair; random part: Hypothesis trees with up to 10 '
         'operators, depth <= 6, every spelling, random parentheses. non-trivial = >= 2 operators and the printed '
         'token sequence has >= 2 grammatical bracketings (some operator has an un-parenthesised operand that is open '
-        'towards it, so precedence/associativity decides the grouping); distinct by (dialect, context, text)')
+        'towards it, so precedence/associativity decides the grouping); distinct by (dialect, context, text, layout). '
+        'Layouts: every tree with <= 2 operators (select list, WHERE) and a fifth of the random trees are also parsed with '
+        'newlines / tabs / CRLF / runs of blanks / block and line comments between their tokens (two-word operators!)')
 ASSUMPTIONS = ['sqlite3 (stdlib) is the reference engine; its grouping agrees with the property\'s order on the '
                'generated domain (checked on every case: original text vs fully parenthesised generating tree; a '
                'disagreement is a harness error)',
@@ -54,7 +56,8 @@ FLOORS = {
         'spelling:>=': 5000, 'spelling:and': 14000, 'spelling:between': 20000, 'spelling:in': 3700,
         'spelling:is not null': 3500, 'spelling:is null': 7000, 'spelling:like': 12000,
         'spelling:not': 11000, 'spelling:not in': 6800, 'spelling:not like': 2200, 'spelling:or': 14000,
-        '__nontrivial__': 30000},
+        '__nontrivial__': 30000, 'layout:comment': 600, 'layout:newline': 600, 'layout:mixed': 600, 'layout:mixed-comment': 600,
+        'layout:crlf': 600, 'layout:tab': 600, 'layout:line-comment': 600, 'layout:wide': 600},
     'thorough': {
         'ctx:case': 41000, 'ctx:func': 53000, 'ctx:having': 44000, 'ctx:on': 44000, 'ctx:select': 130000,
         'ctx:where': 44000, 'explicit-parens': 170000, 'leaf:int': 140000, 'leaf:null': 100000,
@@ -73,7 +76,8 @@ FLOORS = {
         'spelling:between': 160000, 'spelling:in': 18000, 'spelling:is not null': 38000,
         'spelling:is null': 48000, 'spelling:like': 35000, 'spelling:not': 100000,
         'spelling:not in': 20000, 'spelling:not like': 6500, 'spelling:or': 100000,
-        '__nontrivial__': 200000}}
+        '__nontrivial__': 200000, 'layout:comment': 5000, 'layout:newline': 5000, 'layout:mixed': 5000, 'layout:mixed-comment': 5000,
+        'layout:crlf': 5000, 'layout:tab': 5000, 'layout:line-comment': 5000, 'layout:wide': 5000}}
 N_RANDOM = {'quick': 24000, 'thorough': 320000}   # random cases per run, split over the shards
 
 DIALECTS = ('mindsdb', 'mysql', 'sqlite')
@@ -326,11 +330,31 @@ def minimise_rejected(tree, ctx, d):
 
 # ------------------------------------------------------------------------------------------------ the oracle
 
+# what may stand between two tokens of the expression instead of one blank (the expressions hold no string literals)
+LAYOUTS = {'newline': ['\n'], 'tab': ['\t'], 'crlf': ['\r\n'], 'wide': ['   '], 'mixed': [' ', '\n', '\t', '  \n  ', '\r\n', ' '],
+           'comment': [' /* c */ '], 'line-comment': [' -- c\n'], 'mixed-comment': [' ', ' /* c */ ', '\n', '/**/', ' -- x\n ', ' ']}
+
+
+def relayout(text, layout):
+    if not layout:
+        return text
+    seps = LAYOUTS[layout]
+    parts = text.split(' ')
+    out = [parts[0]]
+    for i, p in enumerate(parts[1:]):
+        out.append(seps[i % len(seps)])
+        out.append(p)
+    return ''.join(out)
+
+
 def judge(case, col):
     from mindsdb_sql.exceptions import ParsingException
     from vf.props.c02 import site_of
     d, ctx, tree = case['dialect'], case['ctx'], case['tree']
+    layout = case.get('layout')
     cfg = {'dialect': d, 'ctx': ctx.split(':')[0]}
+    if layout:
+        cfg['layout'] = 'comments' if 'comment' in layout else 'blanks'
     if (d, ctx) in _MISSING_CTX:
         col.excluded('context not in dialect: ' + d + ' ' + ctx.split(':')[0])
         return []
@@ -343,7 +367,7 @@ def judge(case, col):
     if ctx in ('where', 'having') and ot.fold_neg(e_c)[0] == 'leaf':
         col.excluded('WHERE/HAVING <constant>')
         return []
-    sql = FRAMES[ctx].format(e=text)
+    sql = FRAMES[ctx].format(e=relayout(text, layout))
 
     # model self-check against the reference engine (harness error when my precedence table or printer is wrong)
     eng = _engine()
@@ -370,8 +394,10 @@ def judge(case, col):
         classes.append('leaf:int')
     if any(v is None for v in lv):
         classes.append('leaf:null')
-    key = (d, ctx, text)
+    key = (d, ctx, text, layout)
     sample = {'dialect': d, 'sql': sql}
+    if layout:
+        classes.append('layout:' + layout)
     out = []
 
     try:
@@ -553,6 +579,11 @@ def enumerated(tier):
                         if nops == 4 and vi > 0 and ctx != 'select':
                             continue
                         yield {'dialect': d, 'ctx': subs[(i + vi) % len(subs)], 'tree': v, 'origin': 'enum'}
+                    if nops <= 2 and ctx in ('select', 'where'):
+                        # the same text with other white space / comments between its tokens (two-word operators!)
+                        for li, lay in enumerate(sorted(LAYOUTS)):
+                            if nops == 1 or (i + li) % 2 == 0 or tier == 'thorough':
+                                yield {'dialect': d, 'ctx': subs[i % len(subs)], 'tree': tree, 'origin': 'enum', 'layout': lay}
 
 
 _S_LEAF = st.sampled_from([['leaf', v] for v in ot.LEAF_NAMES] * 2 + [['leaf', v] for v in (0, 1, 2, 3)]
@@ -627,7 +658,10 @@ def cases(draw):
     t = _tree(draw, draw(_S_NOPS), 0)
     while t[0] == 'leaf' or (t[0] == 'p' and t[1][0] == 'leaf'):
         t = ['bin', draw(_S_BIN), t, list(draw(_S_LEAF))]
-    return {'dialect': d, 'ctx': ctx, 'tree': _fix(t, d), 'origin': 'random'}
+    c = {'dialect': d, 'ctx': ctx, 'tree': _fix(t, d), 'origin': 'random'}
+    if draw(st.integers(0, 4)) == 0:
+        c['layout'] = draw(st.sampled_from(sorted(LAYOUTS)))
+    return c
 
 
 # ------------------------------------------------------------------------------------------------ runner hooks
